@@ -1,1 +1,124 @@
-From FV Require Import model.Paint.
+(* C28 — static materials are painted by placement order.
+   Only statements closed by [exact]; model: model/Paint.v (+ model/PaintMaterials.v),
+   lemmas: proofs/Paint_proofs.v.  Everything is generic over an ordered field K (executed at Qc). *)
+From Coq Require Import ZArith List Bool QArith Qcanon.
+From FV Require Import base.Scalar base.PaintBase model.PaintMaterials model.Paint proofs.Paint_proofs.
+Import ListNotations.
+
+(* [is_top K c objs o]: o is in the (unsorted) object list at some position i, covers the cell c
+   (inside its slice, and its voxel mask is true there), no covering object has a higher
+   placement_order, and every covering object of the same order sits at a position j <= i
+   ("list order breaks ties"). *)
+
+(* inverse permittivity / permeability, at any tier (1, 3 or 9 components), for any object list and
+   any cell: if the material tensors can be inverted at that tier and the cell is grounded (a uniform
+   object wrote it before any multi-material object touched it), the painted value is the inverse of
+   the top object's material. *)
+Theorem C28_cell_value_is_top_object :
+  forall (K : OFld) (t : Tier) (prop : Mat K -> T9 K) (objs : list (RObj K)) (c : cell),
+  Forall (inv_ok K t prop) objs ->
+  grounded K c (sort_objs K objs) = true ->
+  exists o, is_top K c objs o /\
+            paint_inv K t prop objs c = Some (vinv K t (pick K t (prop (r_mat K o)))).
+Proof. exact paint_inv_top. Qed.
+Print Assumptions C28_cell_value_is_top_object.
+
+(* conductivities: the top object's conductivity times the reference spacing *)
+Theorem C28_conductivity_is_top_object :
+  forall (K : OFld) (t : Tier) (prop : Mat K -> T9 K) (sp : K) (objs : list (RObj K)) (c : cell),
+  grounded K c (sort_objs K objs) = true ->
+  exists o, is_top K c objs o /\
+            paint_cond K t prop sp objs c = vscale K t sp (pick K t (prop (r_mat K o))).
+Proof. exact paint_cond_top. Qed.
+Print Assumptions C28_conductivity_is_top_object.
+
+(* "the volume is lowest": a uniform object whose slice contains the cell and whose order is strictly
+   below every multi-material object touching the cell grounds the cell *)
+Theorem C28_volume_grounds :
+  forall (K : OFld) (c : cell) (v : RObj K) (objs : list (RObj K)),
+  In v objs -> r_mask K v = None -> in_box c (r_box K v) = true ->
+  (forall o, In o objs -> r_mask K o <> None -> in_box c (r_box K o) = true -> (r_order K v < r_order K o)%Z) ->
+  grounded K c (sort_objs K objs) = true.
+Proof. exact volume_grounds. Qed.
+Print Assumptions C28_volume_grounds.
+
+(* the tier-9 inverse written into the arrays is the matrix inverse *)
+Theorem C28_full_tier_is_matrix_inverse :
+  forall (K : OFld) (p : T9 K), det33 K p <> f0 K ->
+  mul33 K p (inv33 K p) = id33 K /\ mul33 K (inv33 K p) p = id33 K.
+Proof. exact inv33_both. Qed.
+Print Assumptions C28_full_tier_is_matrix_inverse.
+
+(* the material a multi-material object writes, looked up through the sorted material list
+   (index of the name in the ordered names, then that entry of the ordered values), is the material
+   registered under that name *)
+Theorem C28_multi_material_is_named :
+  forall (K : OFld) (mats : list (Mat K)) (sel : nat), multi_material K mats sel = nth_error mats sel.
+Proof. exact multi_material_is_named. Qed.
+Print Assumptions C28_multi_material_is_named.
+
+(* the component count is the widest tier any material needs *)
+Theorem C28_tier_is_widest_need :
+  forall (K : OFld) (rel : K) (prop : Mat K -> T9 K) (mats : list (Mat K)),
+  (forall m, In m mats -> tier_le (need K rel (prop m)) (tier_of K rel prop mats)) /\
+  (mats = [] \/ exists m, In m mats /\ need K rel (prop m) = tier_of K rel prop mats).
+Proof. exact tier_of_widest. Qed.
+Print Assumptions C28_tier_is_widest_need.
+
+(* the assembled output: component counts, per-cell contents (= the painted functions the theorems
+   above speak about), scalar permeability iff no material is magnetic, conductivity arrays iff some
+   material is conductive *)
+Theorem C28_assemble :
+  forall (K : OFld) (rel : K) shape c0 dt cn objs out robjs,
+  assemble K rel shape c0 dt cn objs = Some out -> resolve_all K objs = Some robjs ->
+  let mats := all_materials K objs in
+  let sp := conductivity_spacing K c0 dt cn in
+  let te := tier_of K rel (m_eps K) mats in
+  out_eps_n K out = tier_n te /\
+  combine (cells shape) (out_eps K out) =
+    map (fun c => (c, option_map (vlist K te) (paint_inv K te (m_eps K) robjs c))) (cells shape) /\
+  (out_mu K out = MuScalarOne K <-> forall m, In m mats -> is_magnetic K rel m = false) /\
+  (forall n a, out_mu K out = MuArray K n a ->
+     let tm := tier_of K rel (m_mu K) mats in
+     n = tier_n tm /\ combine (cells shape) a = map (fun c => (c, option_map (vlist K tm) (paint_inv K tm (m_mu K) robjs c))) (cells shape)) /\
+  (out_sige K out = None <-> forall m, In m mats -> is_econductive K rel m = false) /\
+  (forall n a, out_sige K out = Some (n, a) ->
+     let ts := tier_of K rel (m_sige K) mats in
+     n = tier_n ts /\ combine (cells shape) a = map (fun c => (c, vlist K ts (paint_cond K ts (m_sige K) sp robjs c))) (cells shape)) /\
+  (out_sigm K out = None <-> forall m, In m mats -> is_mconductive K rel m = false) /\
+  (forall n a, out_sigm K out = Some (n, a) ->
+     let ts := tier_of K rel (m_sigm K) mats in
+     n = tier_n ts /\ combine (cells shape) a = map (fun c => (c, vlist K ts (paint_cond K ts (m_sigm K) sp robjs c))) (cells shape)).
+Proof. exact assemble_reads_paint. Qed.
+Print Assumptions C28_assemble.
+
+(* storing the scalar 1.0 loses nothing: with identity permeabilities the array would hold 1 everywhere *)
+Theorem C28_scalar_permeability_consistent :
+  forall (K : OFld) (t : Tier) (objs : list (RObj K)) (c : cell),
+  Forall (fun o => m_mu K (r_mat K o) = id33 K) objs -> grounded K c (sort_objs K objs) = true ->
+  paint_inv K t (m_mu K) objs c = Some (pick K t (id33 K)).
+Proof. exact nonmagnetic_array_would_be_one. Qed.
+Print Assumptions C28_scalar_permeability_consistent.
+
+(* non-vacuity: volume (eps 1) + box (eps 2, order 0) + later box (eps 4, order 0) + masked object of
+   order 1 (eps 8): cell (1,1,1) is covered by all, the mask is true there -> 1/8; cell (0,0,0) is
+   covered by the volume and the first box only -> 1/2; hypotheses of the theorems hold. *)
+Definition ex_rel : Qc := q 1 1000000000.
+Definition ex_objs : list (Obj QcOF) :=
+  [ UNI (-1000) ((0,0,0),(3,3,3))%Z (MAT (D9 (q 1 1) (q 1 1) (q 1 1)) (D9 (q 1 1) (q 1 1) (q 1 1)) (D9 (q 0 1) (q 0 1) (q 0 1)) (D9 (q 0 1) (q 0 1) (q 0 1)));
+    UNI 0 ((0,0,0),(2,2,2))%Z (MAT (D9 (q 2 1) (q 2 1) (q 2 1)) (D9 (q 1 1) (q 1 1) (q 1 1)) (D9 (q 0 1) (q 0 1) (q 0 1)) (D9 (q 0 1) (q 0 1) (q 0 1)));
+    UNI 0 ((1,1,1),(3,3,3))%Z (MAT (D9 (q 4 1) (q 4 1) (q 4 1)) (D9 (q 1 1) (q 1 1) (q 1 1)) (D9 (q 0 1) (q 0 1) (q 0 1)) (D9 (q 0 1) (q 0 1) (q 0 1)));
+    MUL 1 ((1,1,1),(3,3,3))%Z [MAT (D9 (q 9 1) (q 9 1) (q 9 1)) (D9 (q 1 1) (q 1 1) (q 1 1)) (D9 (q 0 1) (q 0 1) (q 0 1)) (D9 (q 0 1) (q 0 1) (q 0 1)); MAT (D9 (q 8 1) (q 8 1) (q 8 1)) (D9 (q 1 1) (q 1 1) (q 1 1)) (D9 (q 0 1) (q 0 1) (q 0 1)) (D9 (q 0 1) (q 0 1) (q 0 1))] 1
+        [[[true; false]; [false; false]]; [[false; false]; [false; true]]] ].
+Example C28_example :
+  match resolve_all QcOF ex_objs with
+  | Some r =>
+      paint_inv QcOF Iso (m_eps QcOF) r (1,1,1)%Z = Some (q 1 8) /\
+      paint_inv QcOF Iso (m_eps QcOF) r (0,0,0)%Z = Some (q 1 2) /\
+      paint_inv QcOF Iso (m_eps QcOF) r (2,2,2)%Z = Some (q 1 8) /\
+      paint_inv QcOF Iso (m_eps QcOF) r (2,2,1)%Z = Some (q 1 4) /\
+      grounded QcOF (1,1,1)%Z (sort_objs QcOF r) = true /\
+      tier_of QcOF ex_rel (m_eps QcOF) (all_materials QcOF ex_objs) = Iso
+  | None => False
+  end.
+Proof. vm_compute. repeat split; reflexivity. Qed.
